@@ -313,7 +313,18 @@ pub fn make_job(ctx: &Ctx, prop: &str, id: u64) -> Job {
     let kind = if id < l.cell_bases {
         match prop {
             "C13" => {
-                let base = structured_base(ctx, prop, id, 2 << 20);
+                let mut base = structured_base(ctx, prop, id, 2 << 20);
+                if base.desc.starts_with("gen:") {
+                    let mut r = Rng::new(seed ^ 0xC13);
+                    if id % 20 == 7 {
+                        // ends in a chunk of a type this library may or may not know: if the whole
+                        // file is rejected so is every prefix; if it is accepted, prefixes that end
+                        // inside that chunk must still be rejected
+                        base = with_unknown_last_chunk(base, &mut r);
+                    } else if id % 389 == 33 {
+                        base = many_chunks_last_frame(seed);
+                    }
+                }
                 cuts_job(base, seed)
             }
             "C14" => {
@@ -485,7 +496,18 @@ fn cuts_job(base: Base, seed: u64) -> JobKind {
         cuts.extend(0..n);
     } else {
         cuts.extend(0..4096.min(n));
-        for b in boundaries(&base.map) {
+        // +-8 around frame/chunk boundaries; with very many boundaries a sample of them (the
+        // first and last 60 always)
+        let mut bnds = boundaries(&base.map);
+        if bnds.len() > 500 {
+            let mut br = Rng::sub(seed, "boundary-sample");
+            let head: Vec<usize> = bnds[..60].to_vec();
+            let tail: Vec<usize> = bnds[bnds.len() - 60..].to_vec();
+            let mid: Vec<usize> = (0..380).map(|_| bnds[60 + br.usize_below(bnds.len() - 120)]).collect();
+            bnds = head.into_iter().chain(mid).chain(tail).collect();
+        }
+        let many_fields = base.map.fields.len() > 20_000;
+        for b in bnds {
             for d in 0..17usize {
                 let c = (b + d).saturating_sub(8);
                 if c < n {
@@ -493,7 +515,10 @@ fn cuts_job(base: Base, seed: u64) -> JobKind {
                 }
             }
         }
-        for f in &base.map.fields {
+        for (fi, f) in base.map.fields.iter().enumerate() {
+            if many_fields && fi % 97 != 0 {
+                continue;
+            }
             if f.width <= 4 {
                 for c in f.off..=(f.off + f.width) {
                     if c < n {
@@ -598,7 +623,7 @@ fn special_items(ctx: &Ctx, prop: &str) -> Vec<(String, usize)> {
             for n in if q { vec![50usize] } else { vec![50, 2000] } {
                 v.push(("many-frames-high-layer".into(), n));
             }
-            for n in if q { vec![9000usize, 9000, 9000, 9000] } else { vec![9000, 9000, 30_000, 30_000, 65_535, 65_535, 65_535, 65_535] } {
+            for n in if q { vec![9000usize, 9000, 30_000, 30_000, 30_000, 30_000] } else { vec![9000, 9000, 30_000, 30_000, 65_535, 65_535, 65_535, 65_535] } {
                 v.push(("link-chain".into(), n));
             }
             for _ in 0..if q { 8 } else { 60 } {
@@ -1066,6 +1091,81 @@ pub fn huge_chunk_base(r: &mut Rng) -> Base {
     let map = format::walk(&bytes);
     Base {
         desc: format!("gen:{:016x}+huge-raw-cel {}x{}", gseed, w, h),
+        bytes,
+        map,
+        bug: None,
+    }
+}
+
+/// Append a chunk of an unassigned type as the last chunk of the last frame.
+fn with_unknown_last_chunk(base: Base, r: &mut Rng) -> Base {
+    if !base.map.complete || base.map.frames.is_empty() {
+        return base;
+    }
+    let mut bytes = base.bytes.clone();
+    let n = 8 + r.usize_below(40);
+    let ty = *r.pick(&[0x2099u16, 0x0001, 0x2021, 0x7777]);
+    let mut ins = Vec::new();
+    ins.extend_from_slice(&((6 + n) as u32).to_le_bytes());
+    ins.extend_from_slice(&ty.to_le_bytes());
+    ins.extend(r.bytes(n));
+    let at = base.map.frames.last().unwrap().1;
+    // insert_chunks attributes a position on a frame boundary to the earlier frame: the last one here
+    spec::insert_chunks(&mut bytes, &base.map, at, &ins, 1);
+    let map = format::walk(&bytes);
+    Base {
+        desc: format!("{}+unknown-last-chunk({:#06x},{}B)", base.desc, ty, n),
+        bytes,
+        map,
+        bug: None,
+    }
+}
+
+/// A well-formed sprite whose last frame has exactly 65 535 chunks announced only through the
+/// old 16-bit count (new count 0), most of them 6-byte path chunks.
+fn many_chunks_last_frame(seed: u64) -> Base {
+    let gseed = mix(&[seed, tag("many-chunks")]);
+    let mut sr = Rng::sub(gseed, "spec");
+    let mut s = spec::gen_spec(&mut sr);
+    s.durations.truncate(2);
+    s.cels.retain(|c| (c.frame as usize) < s.durations.len());
+    for t in &mut s.tags {
+        t.from = 0;
+        t.to = 0;
+    }
+    for sl in &mut s.slices {
+        for k in &mut sl.keys {
+            k.frame = 0;
+        }
+    }
+    let bytes0 = spec::encode(&s, &EncOpts { seed: gseed, neutral: false });
+    let m = format::walk(&bytes0);
+    if !m.complete || m.frames.is_empty() {
+        return Base { desc: "gen:many-chunks(failed)".into(), bytes: bytes0, map: m, bug: None };
+    }
+    let fi = m.frames.len() - 1;
+    let have = m.chunks.iter().filter(|c| c.frame == fi).count();
+    let need = 65_535usize.saturating_sub(have);
+    let mut ins = Vec::with_capacity(need * 6);
+    for _ in 0..need {
+        ins.extend_from_slice(&6u32.to_le_bytes());
+        ins.extend_from_slice(&0x2017u16.to_le_bytes());
+    }
+    let mut bytes = bytes0.clone();
+    let at = m.frames[fi].1;
+    let tail = bytes.split_off(at);
+    bytes.extend_from_slice(&ins);
+    bytes.extend_from_slice(&tail);
+    let fstart = m.frames[fi].0;
+    let fsz = format::get(&bytes, fstart, 4) as u32 + ins.len() as u32;
+    format::put32(&mut bytes, fstart, fsz);
+    format::put16(&mut bytes, fstart + 6, 0xFFFF); // old count
+    format::put32(&mut bytes, fstart + 12, 0); // new count: "use the old one"
+    let total = bytes.len() as u32;
+    format::put32(&mut bytes, 0, total);
+    let map = format::walk(&bytes);
+    Base {
+        desc: format!("gen:{:016x}+65535-chunk-last-frame(old-count-only)", gseed),
         bytes,
         map,
         bug: None,
